@@ -25,6 +25,7 @@ class checkpoint(Flow):
         self.checkpoint_name = checkpoint_name
         self.checkpoint_path = os.path.join(checkpoint_path, checkpoint_name)
         self.resources = resources
+        self.parent_chain = ()
 
     @property
     def filename(self):
@@ -39,9 +40,12 @@ class checkpoint(Flow):
             return unstream(self.filename),
         else:
             print('saving checkpoint to: {}'.format(self.checkpoint_path))
-            return itertools.chain(self.chain, (stream(self.filename),
-                                                _notify_checkpoint_saved(self.checkpoint_name)))
+            return itertools.chain(self.chain, self.parent_chain,
+                                   (stream(self.filename),
+                                    _notify_checkpoint_saved(self.checkpoint_name)))
 
     def handle_flow_checkpoint(self, parent_chain):
-        self.chain = itertools.chain(self.chain, parent_chain)
+        # the links preceding the checkpoint are handed over anew every time the parent flow is chained:
+        # they replace (not extend) the ones of an earlier run of the same flow object
+        self.parent_chain = parent_chain
         return [self]
